@@ -28,6 +28,9 @@ import FuelVerif.Model.CryptoOps
 namespace FuelVerif.Memory.C24
 open FuelVerif FuelVerif.Memory FuelVerif.Gen FuelVerif.Instr
 
+/-- `MEM_SIZE` of the C24 memory model (`Gen/MemConsts.lean`); the other models carry their own generated copy -/
+abbrev M24 : Nat := FuelVerif.Gen.memSize
+
 /-! ### generic: from "what changed" to the verdict -/
 
 theorem classOfOpcode_row {row : InstrRow} (hm : row ∈ instrTable) : classOfOpcode row.opcode = writeClassOf row.name := by
@@ -80,7 +83,7 @@ theorem verdict_ok_of_owned_region {o : StepObs} {changes : List (Nat × Nat)} {
 
 /-! ### the 14 wide-integer opcodes -/
 
-open FuelVerif.Alu in
+open FuelVerif.Alu FuelVerif.Gen.AluArgs in
 /-- the memory after a wide instruction (specification form): untouched, or the result stored at an owned destination -/
 theorem wideSpec_mem (op : WideOp) (a b c d : Nat) (s : VmSt) :
     (wideSpec op a b c d s).1.mem = s.mem ∨
@@ -108,7 +111,7 @@ theorem wideSpec_mem (op : WideOp) (a b c d : Nat) (s : VmSt) :
         | ok v =>
           simp only []
           by_cases hc : p.kind.isCmp = true
-          · simp only [hc, if_true]; exact Or.inl rfl
+          · simp [hc]
           · simp only [hc, if_false]
             cases hw : writeFail s (s.regs a) op.bytes with
             | some e => exact Or.inl rfl
@@ -133,25 +136,26 @@ theorem wideSpec_mem (op : WideOp) (a b c d : Nat) (s : VmSt) :
                 · cases hpl; exact hc rfl
                 · cases hpl
 
-open FuelVerif.Alu in
+open FuelVerif.Alu FuelVerif.Gen.AluArgs in
 /-- `OwnershipRegisters` of the wide model = the C24 ownership predicate on the same four numbers -/
 theorem wide_owns_bridge (s : VmSt) (a n : Nat) :
-    ownsRange s a n = ({ sp := s.regs regSP, ssp := s.regs regSSP, hp := s.regs regHP, prevHp := s.prevHp } : Ownership).hasRange memSize a (a + n) := by
-  have hM : Gen.AluArgs.vmMaxRam = memSize := by decide
+    ownsRange s a n = ({ sp := s.regs regSP, ssp := s.regs regSSP, hp := s.regs regHP, prevHp := s.prevHp } : Ownership).hasRange Gen.memSize a (a + n) := by
+  have hM : Gen.AluArgs.vmMaxRam = Gen.memSize := by decide
   simp only [ownsRange, VmSt.owner, Owner.hasStack, Owner.hasHeap, Ownership.hasRange, Ownership.hasStack, Ownership.hasHeap, hM]
+  first | rfl | (congr 1 <;> (repeat' split) <;> simp_all)
 
-open FuelVerif.Alu in
+open FuelVerif.Alu FuelVerif.Gen.AluArgs in
 /-- write class the table assigns to each wide opcode -/
 def wideClass (op : WideOp) : WriteClass := if op = .WDCM ∨ op = .WQCM then .none else .owned
 
-open FuelVerif.Alu in
+open FuelVerif.Alu FuelVerif.Gen.AluArgs in
 theorem wide_rows_class :
     instrTable.all (fun row => match WideOp.ofName row.name with
       | some op => writeClassOf row.name == some (wideClass op)
       | none => true) = true := by
   decide +kernel
 
-open FuelVerif.Alu in
+open FuelVerif.Alu FuelVerif.Gen.AluArgs in
 /-- one modelled execution of a wide-integer instruction, as the monitor sees it -/
 def wideStep (o : StepObs) (changes : List (Nat × Nat)) : Prop :=
   ∃ (row : InstrRow) (op : WideOp) (a b c d : Nat) (s : VmSt),
@@ -160,7 +164,7 @@ def wideStep (o : StepObs) (changes : List (Nat × Nat)) : Prop :=
     o.hasOwn (s.regs regSSP) (s.regs regSP) (s.regs regHP) s.prevHp ∧
     Reports (fun x => (execWide op [a, b, c, d] s).1.mem.bytes x ≠ s.mem.bytes x) changes
 
-open FuelVerif.Alu in
+open FuelVerif.Alu FuelVerif.Gen.AluArgs in
 /-- **WDCM WQCM WDOP WQOP WDML WQML WDDV WQDV WDMD WQMD WDAM WQAM WDMM WQMM**: whatever the modelled instruction
 changes in memory is accepted by the verdict — the compares change nothing, the others change only bytes of the
 destination range, and only after that range passed `verify_ownership` with the frame's registers -/
@@ -236,35 +240,45 @@ theorem ecRecover_written {recover : Bytes → Bytes → Except Ecdsa.Error Byte
     (h : ecRecover recover m read a b c = .ok out) :
     writeCheck m a Gen.SigFormat.lenPublicKey = .ok () ∧ ∃ bs, out.written = some bs ∧ bs.length = Gen.SigFormat.lenPublicKey := by
   unfold ecRecover at h
-  split at h
-  · cases h
-  · split at h
-    · cases h
-    · split at h
-      · rename_i key hk
-        split at h
-        · cases h
-        · rename_i hw
-          cases h
-          exact ⟨by rw [hw], key, rfl, hlen _ _ _ hk⟩
-      · split at h
-        · cases h
-        · rename_i hw
-          cases h
-          exact ⟨by rw [hw], _, rfl, by simp [zeros]⟩
+  cases hv1 : CryptoOps.verify m b Gen.SigFormat.lenBytes64 with
+  | error e => simp [hv1] at h
+  | ok r1 =>
+    cases hv2 : CryptoOps.verify m c Gen.SigFormat.lenBytes32 with
+    | error e => simp [hv1, hv2] at h
+    | ok r2 =>
+      cases hw : writeCheck m a Gen.SigFormat.lenPublicKey with
+      | error e =>
+        cases hr : recover (read b Gen.SigFormat.lenBytes64) (read c Gen.SigFormat.lenBytes32) <;> simp [hv1, hv2, hw, hr] at h
+      | ok u =>
+        cases u
+        refine ⟨rfl, ?_⟩
+        cases hr : recover (read b Gen.SigFormat.lenBytes64) (read c Gen.SigFormat.lenBytes32) with
+        | ok key =>
+          simp only [hv1, hv2, hw, hr, Except.ok.injEq] at h
+          subst h
+          exact ⟨key, rfl, hlen _ _ _ hr⟩
+        | error e =>
+          simp only [hv1, hv2, hw, hr, Except.ok.injEq] at h
+          subst h
+          exact ⟨_, rfl, by simp [zeros]⟩
 
 open FuelVerif.CryptoOps in
 theorem ed19_written {edVerify : Bytes → Bytes → Bytes → Bool} {m : MemView} {read : Nat → Nat → Bytes}
     {a b c len : Nat} {out : Outcome} (h : ed19 edVerify m read a b c len = .ok out) : out.written = none := by
   unfold ed19 at h
   simp only at h
-  split at h
-  · cases h
-  · split at h
-    · cases h
-    · split at h
-      · cases h
-      · split at h <;> cases h <;> rfl
+  cases hv1 : CryptoOps.verify m a Gen.SigFormat.lenBytes32 with
+  | error e => simp [hv1] at h
+  | ok r1 =>
+    cases hv2 : CryptoOps.verify m b Gen.SigFormat.lenBytes64 with
+    | error e => simp [hv1, hv2] at h
+    | ok r2 =>
+      generalize (if len = Gen.SigFormat.ed19ZeroLen then Gen.SigFormat.ed19DefaultLen else len) = L at h
+      cases hv3 : CryptoOps.verify m c L with
+      | error e => simp [hv1, hv2, hv3] at h
+      | ok r3 =>
+        simp only [hv1, hv2, hv3] at h
+        split at h <;> (simp only [Except.ok.injEq] at h; subst h; rfl)
 
 open FuelVerif.CryptoOps in
 /-- **ECK1 ECR1 ED19**: the recovered key (or 64 zero bytes) is written at `$a` only after `write(owner, a, 64)` accepted
@@ -327,7 +341,7 @@ theorem copy_instructions_hold : EveryInstructionStatement copyStep := by
 
 /-! ### the 33 ALU and 12 jump opcodes: register-only models -/
 
-open FuelVerif.Alu in
+open FuelVerif.Alu FuelVerif.Gen.AluArgs in
 /-- the ALU and jump families are modelled as functions `Regs → Regs × Option Panic` (`execAlu`, `execJump`): the
 helpers they transcribe (`alu_set`, `alu_capture_overflow`, …, `JumpArgs::jump`, `write_user_register`) receive
 register handles only. Their modelled executions therefore have an empty set of changed addresses. -/
@@ -336,24 +350,24 @@ def regOnlyStep (o : StepObs) (changes : List (Nat × Nat)) : Prop :=
     ((AluOp.ofName row.name).isSome = true ∨ (JumpOp.ofName row.name).isSome = true) ∧
     Reports (fun _ => False) changes
 
-open FuelVerif.Alu in
+open FuelVerif.Alu FuelVerif.Gen.AluArgs in
 /-- the table classifies every opcode of these two families as `none` -/
 theorem regonly_rows_class :
     instrTable.all (fun row => ((AluOp.ofName row.name).isSome || (JumpOp.ofName row.name).isSome) →
       writeClassOf row.name == some .none) = true := by
   decide +kernel
 
-open FuelVerif.Alu in
+open FuelVerif.Alu FuelVerif.Gen.AluArgs in
 theorem regonly_instructions_hold : EveryInstructionStatement regOnlyStep := by
   intro o changes ⟨row, hm, hopc, hfam, hrep⟩
   have h0 := regonly_rows_class
   rw [List.all_eq_true] at h0
-  have h1 := h0 row hm
+  have h1 := of_decide_eq_true (h0 row hm)
   have hcls : classOfOpcode o.opcode = some .none := by
     rw [hopc, classOfOpcode_row hm]
     have : ((AluOp.ofName row.name).isSome || (JumpOp.ofName row.name).isSome) = true := by
       rcases hfam with h | h <;> simp [h]
-    simpa using h1 (by simpa using this)
+    simpa using h1 this
   exact verdict_ok_of_unchanged hcls hrep (fun _ h => h)
 
 /-! ### union, and what remains -/
@@ -371,7 +385,7 @@ theorem every_modelled_instruction_holds : EveryInstructionStatement modelledSte
   · exact copy_instructions_hold o changes h
   · exact regonly_instructions_hold o changes h
 
-open FuelVerif.Alu in
+open FuelVerif.Alu FuelVerif.Gen.AluArgs in
 /-- mnemonics covered by `every_modelled_instruction_holds` -/
 def isModelledOpcode (name : String) : Bool :=
   (WideOp.ofName name).isSome || (AluOp.ofName name).isSome || (JumpOp.ofName name).isSome ||
@@ -382,8 +396,8 @@ the classification table (`write_class_total`) and the write-site obligation (`n
 def correspondenceOnlyOpcodes : List String :=
   ["RET", "RETD", "ALOC", "MCL", "MCP", "MEQ", "BHSH", "BHEI", "BURN", "CALL", "CROO", "CSIZ", "CB", "LDC", "LOG", "LOGD",
    "MINT", "RVRT", "SCWQ", "SRW", "SRWQ", "SWW", "SWWQ", "TR", "TRO", "K256", "S256", "TIME", "FLAG", "BAL", "SMO",
-   "LB", "LW", "SB", "SW", "MCPI", "GTF", "MCLI", "GM", "CFEI", "CFSI", "CFE", "CFS", "PSHL", "PSHH", "POPL", "POPH",
-   "ECAL", "BSIZ", "ECOP", "EPAR", "SCLR", "SRDD", "SRDI", "SWRD", "SWRI", "SUPD", "SUPI", "SPLD", "LQW", "LHW", "SQW", "SHW"]
+   "LB", "LW", "SB", "SW", "MCPI", "GTF", "LQW", "LHW", "SQW", "SHW", "MCLI", "GM", "CFEI", "CFSI", "CFE", "CFS",
+   "PSHL", "PSHH", "POPL", "POPH", "ECAL", "BSIZ", "ECOP", "EPAR", "SCLR", "SRDD", "SRDI", "SWRD", "SWRI", "SUPD", "SUPI", "SPLD"]
 
 /-- the split is exact: 64 modelled + 63 correspondence-only = the 127 opcodes of the generated table -/
 theorem modelled_split :
@@ -393,11 +407,11 @@ theorem modelled_split :
 
 /-! ### non-vacuity -/
 
-open FuelVerif.Alu in
+open FuelVerif.Alu FuelVerif.Gen.AluArgs in
 /-- a concrete wide step: WDOP `[16,17,18,0x20]` on `exSt` (C22) stores 16 bytes at address 64 inside `[$ssp,$sp) = [32,128)` -/
-example : (execWide .WDOP [16, 17, 18, 0x20] exSt).1.mem.bytes 79 ≠ exSt.mem.bytes 79 := by decide
+example : ((execWide .WDOP [16, 17, 18, 0x20] exSt).1.mem.bytes 79 == exSt.mem.bytes 79) = false := by decide
 example : (instrTable.filter (fun r => r.name == "WDOP")).map (·.opcode) = [0xa2] := by decide +kernel
-example : verdict memSize ⟨0xa2, 32, 128, memSize, memSize, 0, 32, 128, 0, 0, 0, 0, 0, 0⟩ [(79, 80)] = .ok () := by decide +kernel
-example : (verdict memSize ⟨0xa2, 32, 128, memSize, memSize, 0, 32, 128, 0, 0, 0, 0, 0, 0⟩ [(16, 32)]).isOk = false := by decide +kernel
+example : (verdict Gen.memSize ⟨0xa2, 32, 128, Gen.memSize, Gen.memSize, 0, 32, 128, 0, 0, 0, 0, 0, 0⟩ [(79, 80)]).isOk = true := by decide +kernel
+example : (verdict Gen.memSize ⟨0xa2, 32, 128, Gen.memSize, Gen.memSize, 0, 32, 128, 0, 0, 0, 0, 0, 0⟩ [(16, 32)]).isOk = false := by decide +kernel
 
 end FuelVerif.Memory.C24
